@@ -78,22 +78,26 @@ Fixpoint pen_loop (fuel : nat) (is_ge : bool) (cap : nat) (tol : nat -> bool) (i
   end.
 
 (** gjk_nesterov_accelerated / run_gjk_nesterov_accelerated *)
-Fixpoint nesterov_loop (fuel cap : nat) (ray_short omega gap cv inside : nat -> bool)
+Fixpoint nesterov_loop (fuel cap : nat) (ray_short omega gap cv dup inside : nat -> bool)
          (i : nat) (acc : bool) (pass count : nat) : option nat :=
   match fuel with
   | 0 => None
   | S f =>
     if i <? cap then                                        (* while i < max_interations *)
       if ray_short pass then Some count else                (* ray_len < tolerance: break *)
+      let acc := acc && negb (cap / 4 <=? i) in             (* commit 6bd22f2: acceleration off once i >= max_interations // 4 *)
       let count := count + 2 in                             (* s0, s1 = support_function(...) *)
       if omega pass then Some count else                    (* omega > upper_bound: break *)
       if acc && gap pass then                               (* duality gap: acceleration off, continue *)
-        nesterov_loop f cap ray_short omega gap cv inside i false (S pass) count
+        nesterov_loop f cap ray_short omega gap cv dup inside i false (S pass) count
       else if (0 <? i) && cv pass then
-        if acc then nesterov_loop f cap ray_short omega gap cv inside i false (S pass) count   (* continue *)
+        if acc then nesterov_loop f cap ray_short omega gap cv dup inside i false (S pass) count   (* continue *)
         else Some count                                     (* converged: break *)
+      else if dup pass then                                 (* commit 6f5b38a: repeated support vertex *)
+        if acc then nesterov_loop f cap ray_short omega gap cv dup inside i false (S pass) count   (* continue *)
+        else Some count                                     (* break *)
       else if inside pass then Some count                   (* inside or ray_len == 0: break *)
-      else nesterov_loop f cap ray_short omega gap cv inside (S i) acc (S pass) count          (* i += 1 *)
+      else nesterov_loop f cap ray_short omega gap cv dup inside (S i) acc (S pass) count          (* i += 1 *)
     else Some count
   end.
 
